@@ -103,3 +103,51 @@ Check C09_numbers_age_periods_pure.
 Print Assumptions C09_numbers_age_periods_pure.
 Check C09_numbers_age_or_size_periods_pure.
 Print Assumptions C09_numbers_age_or_size_periods_pure.
+
+Require Import FL.Names.FileSpec FL.Flw.TsTime FL.Flw.TsNames FL.Flw.TsInv FL.Flw.TsRun FL.Flw.TsTheorems FL.Flw.TsdInv FL.Flw.TsdRun FL.Flw.TsdAge.
+(* TimestampsDirect naming, any criterion: the rotation flag of every write is the oracle's decision *)
+Theorem C09_timestampsdirect_age_flags c crit t0 off ops i o b :
+  tsdcfg c crit -> tag_ok c -> Forall basic_op ops -> Forall tick_ok ops ->
+  (0 <= t0 + ts_e c off)%Z -> (t0 + elapsed ops + ts_e c off < sec_max)%Z -> (N.of_nat (length ops) <= usize_max)%N ->
+  nth_error ops i = Some o -> (o = OWrite b \/ o = OPlain b) ->
+  nth_error (snd (run (sys0 t0 off) (OStart c :: ops))) (S i)
+  = Some (ObsRes 0
+      match last_opt (tpartition (age_of crit) (lim_of crit) off [] None (titems t0 (firstn i ops))) with
+      | None => false
+      | Some (start, content) => rotate_due (age_of crit) (lim_of crit) off start content (clock_run t0 (firstn i ops))
+      end).
+Proof. exact (timestampsdirect_age_flags c crit t0 off ops i o b). Qed.
+
+(* ... the files left are exactly the oracle's period partition, and the second of each key - the time stamp in the file's
+   name - is the instant at which the file was started *)
+Theorem C09_timestampsdirect_age_partition c crit t0 off ops :
+  tsdcfg c crit -> tag_ok c -> Forall basic_op ops -> Forall tick_ok ops ->
+  (0 <= t0 + ts_e c off)%Z -> (t0 + elapsed ops + ts_e c off < sec_max)%Z -> (N.of_nat (length ops) <= usize_max)%N ->
+  let tf := tpartition (age_of crit) (lim_of crit) off [] None (titems t0 ops) in
+  exists keys,
+    tsd_view c (ts_e c off) (wfs (s_w (fst (run (sys0 t0 off) (OStart c :: ops ++ [OStop]))))) keys (List.map snd tf)
+    /\ List.map fst keys = List.map fst tf
+    /\ keys_ok keys /\ (forall k, In k keys -> (t0 <= fst k <= t0 + elapsed ops)%Z).
+Proof. exact (timestampsdirect_age_partition c crit t0 off ops). Qed.
+
+(* ... and this instant lies in the period of every record of the file *)
+Theorem C09_timestampsdirect_name_in_period c crit a t0 off ops :
+  tsdcfg c crit -> tag_ok c -> Forall basic_op ops -> Forall tick_ok ops ->
+  (0 <= t0 + ts_e c off)%Z -> (t0 + elapsed ops + ts_e c off < sec_max)%Z -> (N.of_nat (length ops) <= usize_max)%N ->
+  age_of crit = Some a ->
+  let fl := age_files crit off t0 ops in
+  exists keys,
+    tsd_view c (ts_e c off) (wfs (s_w (fst (run (sys0 t0 off) (OStart c :: ops ++ [OStop]))))) keys (List.map rbytes fl)
+    /\ keys_ok keys
+    /\ forall i f, nth_error fl i = Some f ->
+         fst (nth i keys kd) = rstart f
+         /\ (forall t b, In (t, b) (rrecs f) -> period_of a (t + off) = period_of a (fst (nth i keys kd) + off))
+         /\ (rtrig f = false -> exists b rest, rrecs f = (fst (nth i keys kd), b) :: rest).
+Proof. exact (timestampsdirect_name_in_period c crit a t0 off ops). Qed.
+
+Check C09_timestampsdirect_age_flags.
+Print Assumptions C09_timestampsdirect_age_flags.
+Check C09_timestampsdirect_age_partition.
+Print Assumptions C09_timestampsdirect_age_partition.
+Check C09_timestampsdirect_name_in_period.
+Print Assumptions C09_timestampsdirect_name_in_period.
